@@ -20,7 +20,9 @@ def _year_sets(tier):
         ys = set()
         if tier == "quick":
             if not canonical:
+                # the CF spellings must behave like their canonical twins everywhere: near and far years
                 ys.update(range(1999, 2006))
+                ys.update([-401, -400, 0, 1599, 1600, 1799, 1800, 2199, 2200, 2399, 2400, 4600, 9999])
             elif kind == "greg":
                 ys.update(range(2000, 2400))
                 ys.update(A.Y_B)
